@@ -17,3 +17,4 @@ CFG = {
     'assumptions': ['Ed25519 signatures cannot be forged and SHA-256 has no collisions', 'the format readers in harness/world implement the documented note, tree and record formats'],
 }
 CFG['level_text'] += " The forged-log family has a tenth shape: the signature block of the client's stored head under the forged tree text."
+CFG['level_text'] += ' In cold mode half of the cases start from the stored head of the still empty log.'
